@@ -67,6 +67,15 @@ fn present(e: &str, s: &str) -> Result<(Option<String>, Option<String>), String>
 
 fn check_string(e: &str, table: &[&str], s: &str) -> Verdict {
     let want = if table.contains(&s) { Some(s.to_string()) } else { None };
+    if e == "AttestationStatementFormat" {
+        // the same table as a platform's preference list consults it
+        let t = crate::reqcheck::Target::Alone("formatsPreference");
+        let got = t.observe_bytes(&encode(&V::A(vec![V::t(s)])));
+        let exp = Dec::Ok(V::M(vec![(V::t("known"), V::A(if want.is_some() { vec![V::t(s)] } else { vec![] })), (V::t("unknown"), V::Bool(want.is_none()))]));
+        if got != exp {
+            return Verdict::fail(format!("{}|{}|through-preference-list", P, e), exp.show(), got.show());
+        }
+    }
     match present(e, s) {
         Err(p) => Verdict::fail(format!("{}|{}|panic", P, e), "no panic", p),
         Ok((a, b)) => {
